@@ -126,6 +126,9 @@ pub fn install_panic_hook() {
             .map(|s| s.to_string())
             .or_else(|| info.payload().downcast_ref::<String>().cloned())
             .unwrap_or_else(|| "<non-string panic>".into());
+        if msg.contains("KMC-EXPECTED-UNWIND") {
+            return;
+        }
         let loc = info.location().map(|l| format!(" @{}:{}", l.file(), l.line())).unwrap_or_default();
         let _ = LAST_PANIC.try_with(|l| {
             if let Ok(mut g) = l.try_borrow_mut() {
